@@ -27,12 +27,14 @@ theorem foldl_inv_mem {α σ} (P : σ → Prop) (l : List α) (f : σ → α →
 /-- Split every `if`/`match` of the goal and close the leaves. -/
 macro "frame_split" : tactic => `(tactic| ((repeat' split) <;> first | rfl | simp_all))
 
-@[simp] theorem onSt_fst (m : M) (f : St → St) : (onSt m f).1 = f m.1 := rfl
-@[simp] theorem onSt_snd (m : M) (f : St → St) : (onSt m f).2 = m.2 := rfl
-@[simp] theorem send_fst (m : M) (k : Nat) (x : String) : (send m k x).1 = m.1 := rfl
-@[simp] theorem send_snd (m : M) (k : Nat) (x : String) : (send m k x).2 = m.2 ++ [⟨k, x⟩] := rfl
-@[simp] theorem closePeerM_fst (m : M) (k : Nat) : (closePeerM m k).1 = m.1.closePeer k := rfl
-@[simp] theorem closePeerM_snd (m : M) (k : Nat) : (closePeerM m k).2 = m.2 := rfl
+-- (proved by `cases`, not `rfl`, on purpose: as `rfl`-lemmas they make simp's discharger fail to
+-- assign proofs of the side conditions of the `foldl_*` frame lemmas)
+@[simp] theorem onSt_fst (m : M) (f : St → St) : (onSt m f).1 = f m.1 := by cases m; rfl
+@[simp] theorem onSt_snd (m : M) (f : St → St) : (onSt m f).2 = m.2 := by cases m; rfl
+@[simp] theorem send_fst (m : M) (k : Nat) (x : String) : (send m k x).1 = m.1 := by cases m; rfl
+@[simp] theorem send_snd (m : M) (k : Nat) (x : String) : (send m k x).2 = m.2 ++ [⟨k, x⟩] := by cases m; rfl
+@[simp] theorem closePeerM_fst (m : M) (k : Nat) : (closePeerM m k).1 = m.1.closePeer k := by cases m; rfl
+@[simp] theorem closePeerM_snd (m : M) (k : Nat) : (closePeerM m k).2 = m.2 := by cases m; rfl
 
 /-! ### `stop` in named pieces -/
 
@@ -64,5 +66,110 @@ def stopRun (s : St) (err : Bool) : St :=
 
 theorem stop_eq (s : St) (err : Bool) :
     s.stop err = if s.status = .stopping ∨ s.status = .stopped then s else stopRun s err := rfl
+
+/-! ### `handlePieceWriteDone` in named pieces -/
+
+def pwdReset (m : M) (w : WriteJob) : M :=
+  onSt m fun s =>
+    { s with writing := none,
+             wflag := if w.gen = s.gen then setAt s.wflag w.piece false else s.wflag }
+
+/-- failed hash: close and ban the source -/
+def pwdBan (m : M) (w : WriteJob) : M :=
+  let ip := ((m.1.findPeer w.src).map (·.ip)).getD s!"10.0.{w.src / 250}.{w.src % 250 + 1}"
+  let m := closePeerM m w.src
+  let m := onSt m fun s => { s with banned := if s.banned.contains ip then s.banned else s.banned ++ [ip] }
+  onSt m (·.startDls)
+
+def pwdDone (m : M) (w : WriteJob) : M :=
+  onSt m fun s => if w.gen ≠ m.1.gen then s else { s with done := setAt s.done w.piece true }
+
+def pwdSet (m : M) (w : WriteJob) (b : List Bool) : M :=
+  let m := if b.getD w.piece false then onSt m (·.crash "already have the piece") else m
+  onSt m fun s => { s with bf := some (setAt b w.piece true) }
+
+def pwdOthers (m : M) (w : WriteJob) : M :=
+  let others := if m.1.loaded && !m.1.completed then (m.1.dls.filter (·.piece = w.piece)).map (·.k) else []
+  others.foldl (fun m k => onSt m fun s => (s.closeDl k).startDlFor k) m
+
+def pwdHaves (m : M) (w : WriteJob) : M :=
+  m.1.peers.foldl (fun m p =>
+    let m := updateInterested m p.k
+    if p.has.getD w.piece false then m else send m p.k s!"have:{w.piece}") m
+
+def pwdFinish (m : M) : M :=
+  let (s, completed) := m.1.checkCompletion
+  let m : M := (s, m.2)
+  if completed then
+    let m := onSt m (·.writeBitfield)
+    if m.1.cfg.stopAfter then onSt m (·.stop false) else m
+  else m
+
+def pwdOk (m : M) (w : WriteJob) (b : List Bool) : M :=
+  pwdFinish (pwdHaves (pwdOthers (pwdSet m w b) w) w)
+
+theorem handlePieceWriteDone_eq (m : M) (w : WriteJob) (writeErr : Bool) :
+    handlePieceWriteDone m w writeErr =
+      let m := pwdReset m w
+      if !w.good then pwdBan m w
+      else if writeErr then onSt m (·.stop true)
+      else
+        let m := pwdDone m w
+        match m.1.bf with
+        | none => onSt m (·.crash "handlePieceWriteDone: nil bitfield")
+        | some b => pwdOk m w b := rfl
+
+/-! ### `handleAllocationDone` / `handleVerificationDone` in named pieces -/
+
+def hadInstall (m : M) : M :=
+  onSt m fun s =>
+    let data := (List.range s.cfg.flens.length).filter (fun i => !(s.cfg.fpads.getD i false))
+    { s with allocator := false, openFiles := data, loaded := true, gen := s.gen + 1,
+             done := List.replicate s.n false, wflag := List.replicate s.n false,
+             peers := s.peers.map fun p => { p with has := List.replicate s.n false } }
+
+/-- the torrent is ready to run: replay queued messages, accept, pick -/
+def hadReady (m : M) : M := onSt (processQueued m) fun s => ({ s with acceptor := true }).startDls
+
+/-- `checkCompletion`, then stop (stop-after-download) or get going -/
+def hadCheck (m : M) : M :=
+  let (s, c) := m.1.checkCompletion
+  let m : M := (s, m.2)
+  if c && m.1.cfg.stopAfter then onSt m (·.stop false) else hadReady m
+
+def hadFresh (m : M) : M :=
+  hadCheck (onSt m fun s => (({ s with bf := some (List.replicate s.n false) }).resetCompletion).markPaddingPieces)
+
+def hadTrust (m : M) (b : List Bool) : M :=
+  hadCheck (onSt m fun s => ({ s with done := b }).markPaddingPieces)
+
+theorem handleAllocationDone_eq (m : M) (hasExisting hasMissing : Bool) :
+    handleAllocationDone m hasExisting hasMissing =
+      let m := hadInstall m
+      match m.1.bf with
+      | some b =>
+        if !hasMissing then hadTrust m b
+        else if !hasExisting then hadFresh m
+        else onSt m fun s => { s with verifier := true }
+      | none =>
+        if !hasExisting then hadFresh m
+        else onSt m fun s => { s with verifier := true } := rfl
+
+def hvdInstall (m : M) : M :=
+  let m := onSt m fun s => { s with verifier := false, bf := some s.diskOK, tainted := false }
+  let m := onSt m (·.writeBitfield)
+  let m := onSt m fun s => { s with done := (List.range s.n).map fun i => s.done.getD i false || s.diskOK.getD i false }
+  onSt m fun s => if !allTrue s.diskOK then s.resetCompletion else s
+
+def hvdHaves (m : M) : M :=
+  let haves := (List.range m.1.n).filter fun i => m.1.diskOK.getD i false
+  m.1.peers.foldl (fun m p =>
+    updateInterested (haves.foldl (fun m i => send m p.k s!"have:{i}") m) p.k) m
+
+theorem handleVerificationDone_eq (m : M) :
+    handleVerificationDone m =
+      let m := hvdInstall m
+      if m.1.doVerify then onSt m fun s => ({ s with doVerify := false }).stop false
+      else hadCheck (hvdHaves m) := rfl
 
 end Rain.Loop
